@@ -203,6 +203,14 @@ class Ctx:
         self.rng = random.Random(self.seed * 1000003 + int(pid[1:]))
         self.work = os.path.join(VERIF, '.work', '%s-%d' % (pid, os.getpid()))
         shutil.rmtree(self.work, ignore_errors=True)
+        # scratch directories left behind by runs of this property that were killed: remove those older than three hours
+        try:
+            for d in os.listdir(os.path.join(VERIF, '.work')):
+                full = os.path.join(VERIF, '.work', d)
+                if d.startswith(pid + '-') and os.path.isdir(full) and time.time() - os.path.getmtime(full) > 3 * 3600:
+                    shutil.rmtree(full, ignore_errors=True)
+        except OSError:
+            pass
         os.makedirs(self.work)
         self.evaluations = 0
         self.nontrivial = set()
